@@ -487,6 +487,60 @@ func (r *Run) nilValuation(fn *ssa.Function, v ssa.Value) Sigma {
 	return s
 }
 
+// c12NonNilInto decides that a value merged through φ-nodes into `use` (a store) cannot be nil
+// when it arrives there. Each incoming value is judged on its own: it is a constructed error, or —
+// with every test of that very value at its nil outcome — the walk never takes one of the φ-edges
+// the value travels over, or never reaches the use. via lists those edges (pred, block).
+func (r *Run) c12NonNilInto(fn *ssa.Function, v ssa.Value, use ssa.Instruction, via [][2]int, depth int) (bool, string) {
+	if depth > 4 {
+		return false, "undecided: φ nesting too deep"
+	}
+	// under every test of v itself at its nil outcome: v does not get to the use
+	blocked := func() (bool, string) {
+		s := r.nilValuation(fn, v)
+		if len(s) == 0 {
+			return false, shortErr(r.D.D(v)) + " is never tested against nil"
+		}
+		reach := r.D.Walk(fn, s, nil, nil)
+		r.Valuations++
+		if !reach.Has(use) {
+			return true, shortErr(r.D.D(v)) + ": literal unreachable under " + s.String()
+		}
+		for _, e := range via {
+			if !reach.Edges[e] {
+				return true, fmt.Sprintf("%s: does not flow here under %s (edge b%d→b%d not taken)", shortErr(r.D.D(v)), s, e[0], e[1])
+			}
+		}
+		return false, shortErr(r.D.D(v)) + " may arrive nil (under " + s.String() + " the literal is still reached over its edge)"
+	}
+	if ph, ok := v.(*ssa.Phi); ok {
+		if depth > 0 {
+			// a merged value that is tested as a whole before it is merged further
+			if ok, why := blocked(); ok {
+				return true, why
+			}
+		}
+		var whys []string
+		for i, e := range ph.Edges {
+			edge := [2]int{ph.Block().Preds[i].Index, ph.Block().Index}
+			ok, why := r.c12NonNilInto(fn, e, use, append(via[:len(via):len(via)], edge), depth+1)
+			if !ok {
+				return false, why
+			}
+			whys = append(whys, why)
+		}
+		return len(ph.Edges) > 0, strings.Join(whys, "; ")
+	}
+	d := shortErr(r.D.D(v))
+	switch errKind(v) {
+	case "non":
+		return true, d + ": constructed"
+	case "nil":
+		return false, "the nil constant is one of the merged values"
+	}
+	return blocked()
+}
+
 // c12RspErrCause: an RspError built on a failure path carries the error of that failure — the
 // value stored into RspError.Err is a constructed error, or a value the literal cannot be reached
 // with when it is nil.
@@ -526,6 +580,13 @@ func c12RspErrCause(r *Run) {
 				s := r.nilValuation(fn, st.Val)
 				reach := r.D.Walk(fn, s, nil, nil)
 				r.Valuations++
+				if _, isPhi := st.Val.(*ssa.Phi); isPhi && !(len(s) > 0 && !reach.Has(st)) {
+					// the merged value itself is not tested: several failure paths share one literal
+					// (an error handed over by a helper) — each incoming value is decided on its own
+					ok, why := r.c12NonNilInto(fn, st.Val, st, nil, 0)
+					r.Check(key, ok, r.Where(st), "RspError.Err ← "+r.D.D(st.Val)+": every value merged here is a constructed error or cannot arrive when it is nil ("+why+"); otherwise the caller gets an RspError without a cause and Error() panics")
+					break
+				}
 				r.Check(key, len(s) > 0 && !reach.Has(st), r.Where(st), "RspError.Err ← "+r.D.D(st.Val)+": this value is provably non-nil here (the literal is unreachable when it is nil, under "+s.String()+"); otherwise the caller gets an RspError without a cause and Error() panics")
 			}
 			r.Funcs[FuncName(fn)] = true
